@@ -142,6 +142,19 @@ def scenarios(mlr):
             shell="ln -s /dev/full t%d.out; %s put -q 'emit > \"t\".$a.\".out\", mapsum($*, {})' in.dkvp" % (bad, mlr))
         add("dsl-tee-devfull-small-target%d" % bad, None, {"in.dkvp": recs}, key="dsl-tee-devfull-target",
             shell="ln -s /dev/full t%d.out; %s put -q 'tee > \"t\".$a.\".out\", $*' in.dkvp" % (bad, mlr))
+    # more targets than the handle cache holds (256): the failing one is evicted - flushed and closed - long before the end of
+    # the stream, and is or is not written again afterwards; every redirect form
+    many1 = "".join("k=%d,v=hello%d\n" % (i, i) for i in range(1, 301))
+    many2 = many1 + many1
+    for data, tag in ((many1, "once"), (many2, "twice")):
+        for bad in (1, 20, 150, 300):
+            for form, prog in (("print", "print > \"t\".$k.\".out\", $v"), ("printn", "printn > \"t\".$k.\".out\", $v"),
+                               ("dump", "@v = $v; dump > \"t\".$k.\".out\""), ("tee", "tee > \"t\".$k.\".out\", $*"),
+                               ("emit", "emit > \"t\".$k.\".out\", mapsum($*, {})"), ("print-append", "print >> \"t\".$k.\".out\", $v")):
+                add("many-targets-%s-devfull-target%d-%s" % (form, bad, tag), None, {"in.dkvp": data}, key="many-targets-devfull",
+                    shell="ln -s /dev/full t%d.out; %s put -q '%s' in.dkvp" % (bad, mlr, prog))
+            add("many-targets-split-devfull-target%d-%s" % (bad, tag), None, {"in.dkvp": data}, key="many-targets-devfull",
+                shell="ln -s /dev/full split_%d.dkvp; %s split -g k in.dkvp" % (bad, mlr))
     add("tee-verb-devfull-symlink-small", None, {"in.dkvp": recs}, shell="ln -s /dev/full t.out; %s tee t.out in.dkvp" % mlr)
     add("tee-p-verb-failing-command", None, {"in.dkvp": big * 20}, shell="%s tee -p 'head -c 10 > /dev/null' in.dkvp > /dev/null" % mlr)
 
